@@ -35,7 +35,11 @@ def r1(ctx):
                 'property of all their code points' % [show_in(cw, v) for v, _ in rv])
     uw = ctx.body('unicode::is_whitespace')
     rv = ret_values(uw)
-    ok = len(rv) == 1 and match(rv[0][0], Call('Iterator::all', Call('str::chars', ('arg', 1, ANY)), ('fn', Pred(lambda n: n.endswith('char::methods::is_whitespace')))))
+    from analysis.quant import quant_nf
+    from analysis.seq import ITEM as _ITEM
+    q = quant_nf(ctx.facts, uw, rv[0][0]) if len(rv) == 1 else None
+    ok = q is not None and q[0] == 'all' and match(q[1], Call('str::chars', ('arg', 1, ANY))) and \
+        match(core(q[2]), Call('char::methods::is_whitespace', _ITEM))
     ctx.require(ok, uw, 'unicode-predicate', 'unicode::is_whitespace(s) = s.chars().all(char::is_whitespace)',
                 'unicode::is_whitespace is %s' % [show_in(uw, v) for v, _ in rv])
     for fn in ('text::clean', 'text::word_boundaries'):
